@@ -184,15 +184,24 @@ def compute(tier, seed):
             obs.update(o)
     log(f"surface: rustdoc JSON read for {len(obs)} cases, {len(rej)} do not build, {time.time() - t0:.1f}s")
     path = os.path.join(root, "surface.ndjson")
+    first = {}      # (declaration, item name) -> (line of the first event with that item, its const-ness)
     with open(path, "w") as f:
-        for c in cases:
+        for ln, c in enumerate(cases, 1):
             o = obs.get(c["id"])
             cc = {k: c[k] for k in ("enumvis", "cfg", "gapless")}
             if o is None:
-                ev = {"ev": "surface", "case": c["id"], "c": cc, "built": False, "items": [], "structs": [], "traits": [], "msg": rej.get(c["id"], "")[:160]}
+                ev = {"ev": "surface", "case": c["id"], "c": cc, "built": False, "items": [], "structs": [], "traits": [], "msg": rej.get(c["id"], "")[:160],
+                      "peer": []}
             else:
+                peer = []
+                for it in o["items"]:
+                    key = (c["enumvis"], c["gapless"], c.get("shape", "std"), it["name"], it["kind"])
+                    if key in first:
+                        peer.append({"name": it["name"], "isconst": first[key][1], "ref": first[key][0]})
+                    else:
+                        first[key] = (ln, it["isconst"])
                 ev = {"ev": "surface", "case": c["id"], "c": cc, "built": True, "items": o["items"], "structs": o["structs"],
-                      "traits": o["traits"], "msg": ""}
+                      "traits": o["traits"], "msg": "", "peer": peer}
             f.write(json.dumps(ev) + "\n")
     viols, jst = judge.judge_shards([{"trace": path, "events": len(cases)}], module="TraceSurface", log=log)
     byid = {c["id"]: c for c in cases}
